@@ -3,4 +3,4 @@
    as extracted inductives. No Extract Constant. *)
 From Coq Require Extraction ExtrOcamlBasic.
 From Wire Require Import Base.Bytes Model.Harness.
-Extraction "model.ml" run oracle Byte.of_N Byte.to_N.
+Extraction "model.ml" run oracle byte_of_n byte_to_n.
